@@ -205,8 +205,15 @@ def run(ctx):
     oc = prog.one("posix::os_to_cstring")
     To = M.Terms(oc)
     r0 = To.local(0)
-    okc = r0[0] == "call" and r0[1] == "std::result::Result::<T, E>::map_err" and r0[2][0][0] == "call" and r0[2][0][1] == "std::ffi::CString::new" \
-        and M.strip(r0[2][0][2][0]) == ("param", 1, oc.local_name(1))
+    # every Ok it returns carries the Ok payload of CString::new(bytes of s) -- the NUL-checking constructor -- and nothing else is Ok
+    def from_new(x):
+        x = M.strip(x)
+        return x[0] == "call" and x[1] == "std::ffi::CString::new" and M.noref(M.strip(x[2][0])) == ("param", 1, oc.local_name(1))
+    oks = [a_ for a_ in M.alts(r0) if a_[0] == "agg" and a_[1][:3] == ("adt", "std::result::Result", "Ok")]
+    rest = [a_ for a_ in M.alts(r0) if a_ not in oks]
+    okc = bool(oks) and all(from_new(a_[2][0]) for a_ in oks) and \
+        all((a_[0] == "agg" and a_[1][:3] == ("adt", "std::result::Result", "Err")) or (a_[0] == "call" and "from_residual" in a_[1]) or
+            (a_[0] == "call" and a_[1] == "std::result::Result::<T, E>::map_err" and from_new(a_[2][0])) for a_ in rest)
     ctx.ob("R06.2", "os_to_cstring=CString::new(s)", okc, oc.loc(0), "os_to_cstring returns %s" % M.term_str(r0))
     cv = prog.one("posix::CVec::new")
     c0 = prog.fn("posix::CVec::new::{closure#0}")
